@@ -318,12 +318,12 @@ pub fn execute(case: &Case) -> Outcome {
             let k = case.gate_ring;
             let gates: Vec<GateRef> = (0..k).map(|j| sim.gate(path_of(case, j % case.mods.len()).as_str(), &format!("r{j}"))).collect();
             for j in 0..k {
-                let ch = if j == 1 {
+                // every hop of the ring carries a channel with a probe (which pair of gates ends up holding each other
+                // depends on the order of the connect calls)
+                let ch = {
                     let ch = Channel::new(ChannelMetrics::new(1_000_000, Duration::from_nanos(MS), Duration::ZERO, ChannelDropBehaviour::Queue(None)));
                     ch.attach_probe(Probe(Tracked::new("channel-probe-on-gate-ring")));
                     Some(ch)
-                } else {
-                    None
                 };
                 gates[j].clone().connect(gates[(j + 1) % k].clone(), ch);
             }
